@@ -92,7 +92,7 @@ def run(ctx: Ctx) -> None:
             k = sum(1 for e in p.events if e.kind == "stmt" and is_tick(e.node))
             r.check(k == 1, f"ToySimulation.{name}|tick", f.loc(), f"{name} ticks {k} times on its normal path")
 
-    acct_rule(ctx, "R07.pen")
+    acct_rule(ctx, "R07.pen", penalty_only=True)
     order_rule(ctx, "R07.order")
     depth_rule(ctx, "R07.depth")
     src_rule(ctx, "R07.src")
